@@ -157,7 +157,21 @@ Fixpoint classify_from (md : mode) (d : doc) : result (list stmt) :=
     Ok (ss ++ rest)
   end.
 
-Definition classify (d : doc) : result (list stmt) := classify_from MTop d.
+(* What Tokenizer.generate_tokens hands over: on a statement line a word that starts with "#" begins a
+   comment and is dropped with the rest of the line, and "#text" at the start of a line is read as the
+   comment "# text".  So no word of a statement line starts with "#", and a comment line starts with the
+   word "#".  (Only a backslash continuation that runs into a comment line can produce another line;
+   such a document is outside the modelled fragment.) *)
+Definition hash_word (t : str) : bool := match t with c :: _ => N.eqb c 35 | [] => false end.
+Definition line_tokenized (l : line) : bool :=
+  match l with
+  | [] => true
+  | t :: _ => str_eqb t k_hash || forallb (fun u => negb (hash_word u)) l
+  end.
+Definition tokenized (d : doc) : bool := forallb line_tokenized d.
+
+Definition classify (d : doc) : result (list stmt) :=
+  if tokenized d then classify_from MTop d else Error EOutside.
 
 (* ---------- the reader's state ---------- *)
 Record st := mkSt {
